@@ -81,6 +81,14 @@ claim("C18", "sched",
       "virtual loop and clock, sources given the loop explicitly; L<=4 quick / 5 thorough; deviations <=1 (other events)",
       "DESIGN.md §3 C18")
 
+claim("C17", "sched",
+      "exhaustive enumeration of texts x chunkings x poll placements (explorer over write/tick events) on the real sources",
+      "from_textfile: every text over a tiny alphabet (records may contain single characters of a multi-character delimiter), every composition of it into write chunks, every placement of polls "
+      "between writes, from_end on/off with pre-existing content; emitted records must be a prefix of the complete records of what has been written at every step and equal to them at the end, tail withheld. "
+      "filenames: every creation order x glob answer permutation x poll placement; each path once, sorted per poll.",
+      "in-memory append-only file object (trusted fake) in quick plus a few real temp files; thorough adds byte-level chunkings of real files with a two-byte UTF-8 character; fake directory behind the glob seam; text length <= 6 (quick) / 8 (thorough)",
+      "DESIGN.md §3 C17")
+
 ALL = ["C%02d" % i for i in range(1, 21)]
 
 
